@@ -46,6 +46,9 @@ def block_options(i, variant, incdir):
         # non-matching block must not switch off the beginning of the next one
         return ['Include %s/g*.conf' % incdir, 'Port 240%d' % v, 'Include %s/m1.conf %s/m2.conf' % (incdir, incdir),
                 'SendEnv B%d' % v]
+    if variant == 'include-tokens':
+        # tokens written in an included file (or before later lines) stand for the FINAL host, user and port
+        return ['User t%d' % v, 'Port 250%d' % v, 'Hostname %%h.t%d.example' % v, 'Include %s/tok%d.conf' % (incdir, v), 'IdentityFile /k/after%d_%%r_%%%%r' % v]
     if variant in ('none-first', 'none-later'):
         # an explicit "none" is a value like any other: obtained first it stands, obtained later it is ignored
         is_none = (i == 0) == (variant == 'none-first')
@@ -57,6 +60,9 @@ def program(headers, variant, incdir):
     lines = []
     if variant == 'include':
         lines.append('Include %s/top.conf' % incdir)
+    if variant == 'include-tokens':
+        lines.append('Include %s/toktop.conf' % incdir)
+        lines.append('IdentityFile /k/top_%r_%h_%p_%%h')
     if variant == 'include-multi':
         # several files on one line are read in the order written (not sorted): m2 before m1 here
         lines.append('Include %s/m2.conf %s/g3.conf %s/m1.conf' % (incdir, incdir, incdir))
@@ -78,6 +84,11 @@ def write_includes(incdir):
                        ('g3.conf', 'SendEnv G3\nProxyJump g3\n')):
         with open(os.path.join(incdir, name), 'w') as f:
             f.write(text)
+    with open(os.path.join(incdir, 'toktop.conf'), 'w') as f:
+        f.write('IdentityFile /k/inctop_%r_%h_%p_%%h_%n\n')
+    for v in (1, 2, 3):
+        with open(os.path.join(incdir, 'tok%d.conf' % v), 'w') as f:
+            f.write('IdentityFile /k/inc%d_%%r_%%h_%%%%h\nSendEnv T%d\n' % (v, v))
     for v in (1, 2, 3):
         with open(os.path.join(incdir, 'inc%d.conf' % v), 'w') as f:
             f.write('User inc%d\nSendEnv I%d\nHost a\n  IdentityFile ~/.ssh/inc_a_%d\n' % (v, v, v))
@@ -413,7 +424,7 @@ def main(tier, seed):
         hs += list(itertools.product(HEADERS, repeat=n))
     if tier == 'thorough':
         hs = [h for h in hs if len(h) < 3 or len(set(h)) == 3]
-    progs = [(h, v) for h in hs for v in ('plain', 'tokens', 'include', 'include-multi', 'list', 'none-first', 'none-later')]
+    progs = [(h, v) for h in hs for v in ('plain', 'tokens', 'include', 'include-multi', 'list', 'none-first', 'none-later', 'include-tokens')]
     acc = core.pmap(client_worker, core.rotate([progs[i::64] for i in range(64)], seed))
     n_client = acc.evaluations
     acc.merge(core.pmap(server_worker, [0]))
@@ -421,7 +432,7 @@ def main(tier, seed):
     shutil.rmtree(SCRATCH, ignore_errors=True)
     rule = ('client: every sequence of 1..%d conditional blocks over %d headers (Host patterns with wildcards and '
             'negation in either position, Match host/originalhost/user/localuser/all with negation and lists), every '
-            'block assigning each option under test a distinct value, x 7 variants (an explicit none obtained first or later; plain; "=" and quoted spellings, '
+            'block assigning each option under test a distinct value, x 8 variants (percent tokens in included files and before the lines that set what they stand for; an explicit none obtained first or later; plain; "=" and quoted spellings, '
             'Hostname with %%h, IdentityFile with %%h %%r %%p %%n %%%% %%d %%u, multiple SendEnv words, SetEnv; Include '
             'of existing, nested-Host and non-matching glob files; one Include naming several files or a glob matching '
             'several, some ending inside a non-matching block; the blocks as separate files given as a list) x 12 targets (3 hosts x user x port) vs ssh -G; '
